@@ -85,6 +85,14 @@ func (r *Report) SampleIfFew(v interface{}) {
 }
 
 func (r *Report) AddEval(n int64) { r.mu.Lock(); r.Evaluations += n; r.mu.Unlock() }
+
+// Count adds n to the named counter in Extra (how often an oracle really applied: a vacuity indicator).
+func (r *Report) Count(name string, n int) {
+	r.mu.Lock()
+	v, _ := r.Extra[name].(int)
+	r.Extra[name] = v + n
+	r.mu.Unlock()
+}
 func (r *Report) AddReplayed(n int64) {
 	r.mu.Lock()
 	r.Replayed += n
